@@ -357,9 +357,9 @@ def parse_assumptions(log):
         elif line.startswith('Axioms:'):
             cur = True
         elif cur:
-            m = re.match(r'^([A-Za-z_][A-Za-z0-9_\.\']*)\s*:', line)
+            m = re.match(r'^([A-Za-z_][A-Za-z0-9_\.\']*)\s*(:.*)?$', line)
             if m:
-                axioms.add(m.group(1))
+                axioms.add(m.group(1))  # the type may start on this line or continue on indented lines
             elif line and not line.startswith(' '):
                 cur = False
     return closed, sorted(axioms)
